@@ -39,12 +39,25 @@ FLOORS_C07H = {
     "fn_sig_fresh": 60, "hist_via_c": 100, "hist_via_p": 50, "hist_via_m": 50, "labels": 200, "fn_signature_expr": 15,
     "calls_with_error": 100, "corpus_histories": 6,
 }
+# navigation sessions (c07t), per 1500 sessions: a third to a tenth of what the generator produces
+FLOORS_C07T = {
+    "sessions": 1500, "derives": 15000, "parents_with_siblings": 5000, "deferred_resolutions": 8000,
+    "parent_resolved_after_deriving": 600, "resolved_twice": 1200, "subtrees_between_siblings": 300,
+    "derive_of_missing_component": 1500,
+    "mode_end-forward": 100, "mode_end-reverse": 100, "mode_end-shuffled": 100, "mode_immediate-and-end": 100, "mode_random": 200,
+    "pair_f,f": 3000, "pair_i,i": 1000, "pair_d,d": 1000, "pair_cap,len": 150, "pair_base,len": 400, "pair_base,cap": 200,
+    "pair_imag,real": 300, "corpus_sessions": 10,
+}
+for _d in range(10):
+    FLOORS_C07T["parents_with_siblings_depth_%d" % _d] = 250
+    FLOORS_C07T["deferred_sibling_depth_%d" % _d] = 350
 ROUTES = ("direct", "parse", "parse-in-package", "lookup")
 # per generated function of the measured part
 FLOORS_C07X = {"param_leaves": 2, "result_leaves": 0.5, "exec_pairs_run": 0.5, "compiler_size_lines": 1, "deref_loads": 0.1}
 
 
 HIST_KINDS = {"ctxhist", "accept-ctxhist", "accept-hresolve"}
+TREE_KINDS = {"tree", "accept-tree"}
 
 
 def _replay_kinds(ctx):
@@ -91,16 +104,16 @@ def _floors(ctx, name, stats, floors, scale):
 
 
 def run(ctx):
-    if not ctx.build_harness(["c07.go", "c07x.go", "c07h.go"]):
+    if not ctx.build_harness(["c07.go", "c07x.go", "c07h.go", "c07t.go"]):
         return
     ctx.forbidden_scan()
     # model + acceptor must build even when a theorem breaks
     if not ctx.build_driver():
         return
-    if ctx.lake_each(["AvoVerif.Props.C07", "AvoVerif.Props.C07Ctx"]):
+    if ctx.lake_each(["AvoVerif.Props.C07", "AvoVerif.Props.C07Ctx", "AvoVerif.Props.C07Tree"]):
         ctx.audit("C07")
     if ctx.tier == "thorough":
-        ctx.leanchecker(["AvoVerif.Model.Layout", "AvoVerif.Props.C07", "AvoVerif.Model.LayoutCtx", "AvoVerif.Props.C07Ctx"])
+        ctx.leanchecker(["AvoVerif.Model.Layout", "AvoVerif.Props.C07", "AvoVerif.Model.LayoutCtx", "AvoVerif.Props.C07Ctx", "AvoVerif.Props.C07Tree"])
 
     quick = ctx.tier == "quick"
     nontrivial = lambda req, resp: resp != "err"
@@ -115,15 +128,18 @@ def run(ctx):
     # (the same corpus files through the history harness: it re-runs the `ctxhist` lines, c07 the others)
     ncorpus = ctx.coverage.get("corpus_cases", 0)
     ctx.run_corpus("c07h", nontrivial=lambda req, resp: resp != "panic")
-    ctx.coverage["corpus_cases"] = ncorpus
     _rm(ctx, "c07h", "-corpus")
+    ctx.run_corpus("c07t", nontrivial=lambda req, resp: resp != "panic")
+    _rm(ctx, "c07t", "-corpus")
+    ctx.coverage["corpus_cases"] = ncorpus
     # 1. exact model comparison + acceptors on generated signatures x component paths (negative indices and
     #    selectors — regression of F3, fixed in aab3c52 — are part of the normal stream and of the corpus)
     chunks = [(3000, 0)] if quick else [(6000, k) for k in range(10)]
     # a replay file is re-run by the harness that wrote its lines: c07h the histories, c07 everything else
     kinds = _replay_kinds(ctx)
     hist_replay = kinds is not None and bool(kinds & HIST_KINDS)
-    if kinds is not None and hist_replay and not (kinds - HIST_KINDS):
+    tree_replay = kinds is not None and bool(kinds & TREE_KINDS)
+    if kinds is not None and (hist_replay or tree_replay) and not (kinds - HIST_KINDS - TREE_KINDS):
         chunks = []
     for n, k in chunks:
         tag = "" if quick else f"-{k}"
@@ -156,6 +172,22 @@ def run(ctx):
             continue
         st = ctx.coverage.get("input_distribution", {}).get("c07h" + tag, {})
         _floors(ctx, "c07h" + tag, st, {kk: (v if kk == "corpus_histories" else v * n / 600.0) for kk, v in FLOORS_C07H.items()}, 1)
+    # 1c. navigation sessions: Component values are kept and several children derived from the SAME parent value at
+    #     every depth 0..9 (Field x2, Index x2, Base/Len/Cap, Real/Imag, Dereference x2, missing components), siblings
+    #     next to each other or with whole subtrees in between, every interleaving of deriving and resolving — every
+    #     Resolve vs the Lean session model (exact) and judged by ResolveSpec for the component's OWN path
+    tchunks = [(1500, 0)] if quick else [(6000, k) for k in range(4)]
+    if kinds is not None and not tree_replay:
+        tchunks = []
+    for n, k in tchunks:
+        tag = "" if quick else f"-{k}"
+        r = ctx.differential("c07t", n, extra=["-chunk", str(k)], tag=tag, nontrivial=lambda req, resp: resp != "panic")
+        _rm(ctx, "c07t", tag)
+        if r is None or ctx.replay:
+            continue
+        st = ctx.coverage.get("input_distribution", {}).get("c07t" + tag, {})
+        st["sessions"] = st.get("sessions", 0) - st.get("corpus_sessions", 0)
+        _floors(ctx, "c07t" + tag, st, {kk: (v if kk == "corpus_sessions" else v * n / 1500.0) for kk, v in FLOORS_C07T.items()}, 1)
     # 2. compiler agreement (measured): reflect/unsafe sizes of the real compiler, go vet -asmdecl and
     #    execution of generated stub+asm pairs whose operands are the implementation's resolved addresses
     gen = os.path.join(ctx.dir, "gen")
@@ -205,6 +237,15 @@ def run(ctx):
         "package must be an error; every member is judged like any signature, on its own definitions. On disk (c07x): "
         "three families of `package main` directories of one module path loaded through the real Context.Package "
         "(packages.Load) and Implement / Function+SignatureExpr, methods and package-level functions. "
+        "Navigation sessions (c07t): one variable whose type is 2..10 navigation steps deep (structs of 2..4 fields, "
+        "arrays, pointers, defined/alias types, leaves slice/string/complex/array/pointer/basic); a store of Component "
+        "values, 12..45 derivations per session, 2..6 children from the SAME parent value at every kept parent "
+        "(depth 0..9; also steps that do not exist and steps below them), siblings consecutively or with whole subtrees "
+        "in between; Resolve of everything at the end forwards / backwards / shuffled, immediately and again at the end, "
+        "or at random points (an earlier child after a later sibling was derived, the parent again after deriving, the "
+        "same component twice): every Resolve outcome vs the session model (exact) and judged by ResolveSpec/MustResolve "
+        "for the resolved component's own path; hand-written sessions (Len/Cap/Base from one parent reached by 0..7 "
+        "steps, Len resolved last) first. "
         "Histories on ONE build.Context (c07h): 1..4 functions per Context with the same / a shifted / a rotated / a fresh "
         "signature over a small pool of names, per function 3..12 calls among GP8..GP64/XMM allocation, Load/Store of "
         "scalar components into registers of the component's size, Dereference of pointer components (the same one "
@@ -214,7 +255,7 @@ def run(ctx):
         "the calls that recorded an error vs the model (exact, registers named by the call that first showed them), the "
         "implementation's own node lists judged by domOKb (proved sound for DomOK), every emitted operand judged by "
         "ResolveSpec against the signature of its own function. Lower bounds on the "
-        "number of judged cases per class (FLOORS_C07, FLOORS_C07H, FLOORS_C07X) are obligations. "
+        "number of judged cases per class (FLOORS_C07, FLOORS_C07H, FLOORS_C07T, FLOORS_C07X) are obligations. "
         "non-trivial = response other than `err`")
     ctx.assumptions += [
         "gc/amd64 only (WordSize = MaxAlign = 8), ABI0 assembly functions",
